@@ -253,7 +253,9 @@ def bipartite(rep):
         if m:
             ml = enclosing_loops(pmr, molr[0][2], r.node)
             ksrc = origin(local_defs(ml[0]) if ml else rdefs, ast.Name(id=m["k"], ctx=ast.Load()))
-            ok = bool(ml) and pmatch(f"{m['nd']}.get(species_label_attr, str({norm(ml[0].target)}))", ksrc) is not None \
+            # the label is read from the same node's data - through the data alias or spelled out
+            ok = bool(ml) and (pmatch(f"{m['nd']}.get(species_label_attr, str({norm(ml[0].target)}))", ksrc) is not None
+                               or pmatch(f"{G}.nodes[{norm(ml[0].target)}].get(species_label_attr, str({norm(ml[0].target)}))", ksrc) is not None) \
                 and pmatch(f"{G}.nodes[{norm(ml[0].target)}]", origin(local_defs(ml[0]), ast.Name(id=m["nd"], ctx=ast.Load()))) is not None
     rep.ob("O16.1", "R3b", r, ok, alpha(molr[0][2], r.node) if molr else "species_to_mol", "molecule labels are restored under the species label")
     # writer: coefficient and one arc per (species, reaction, side)
@@ -305,21 +307,31 @@ def species_graph(rep):
         m_ = pmatch(f"{DATA}[$$k]", e)
         if m_ is not None and isinstance(e.slice, ast.Constant):
             return e.slice.value, False
+        # data.setdefault(key, <fresh>) is the arc's own entry, created and stored when missing
+        if pmatch(f"{DATA}.setdefault($$k, $$new)", e) is not None and isinstance(e.args[0], ast.Constant):
+            return e.args[0].value, False
         if isinstance(e, ast.Name):
             for d_ in wdefs.get(e.id, []):
                 if d_.kind != "assign":
                     continue
+                if pmatch(f"{DATA}.setdefault($$k, $$new)", d_.value) is not None and isinstance(d_.value.args[0], ast.Constant):
+                    return d_.value.args[0].value, False
                 if pmatch(f"{DATA}[$$k]", d_.value) is not None and isinstance(d_.value.slice, ast.Constant):
                     return d_.value.slice.value, False
                 if pmatch(f"{DATA}.get($$k)", d_.value) is not None and isinstance(d_.value.args[0], ast.Constant):
                     return d_.value.args[0].value, True
         return None, False
     stores = {}   # key -> (value text, through_get, container expr) for  <entry>[eid] = value
+    pmw = parent_map(w.node)
     for t, v, st in assigned_subscripts(w.node):
         if norm(t.slice) == eid:
             k_, tg_ = entry_of(t.value)
             if k_ is not None:
                 stores[k_] = (norm(v), tg_, t.value)
+                # every reaction gets its entry: the store is not made conditional on the coefficient
+                cond = [norm(t_) for t_, _s in guards_of(pmw, st, w.node) if {n_.id for n_ in ast.walk(t_) if isinstance(n_, ast.Name)} & {rc, pc}]
+                if cond:
+                    rep.ob("O16.2", "R3b", w, False, st, f"every reaction on the pair records its own coefficient (the store is skipped under {cond})", node=st)
     ok = stores.get("stoich_r_map", ("",))[0] == rc and stores.get("stoich_p_map", ("",))[0] == pc
     rep.ob("O16.2", "R3b", w, ok, "stoich_r_map[eid] = <reactant coeff>; stoich_p_map[eid] = <product coeff>",
            "a further reaction on the same species pair adds its own entry to both per-reaction maps (reactant coeff to stoich_r_map, product coeff to stoich_p_map)")
@@ -649,7 +661,15 @@ def strings(rep):
     rep.ob("O16.3", "R3d", ps, sep is not None and tok is not None and sep.strip() == tok, f"printer {sep!r} / parser split({tok!r})", "terms are joined and split on the same separator")
     emp_ok = any(isinstance(n.test, ast.BoolOp) and isinstance(n.test.op, ast.Or) and any(pmatch("$s == '∅'", v_) is not None for v_ in n.test.values)
                  for n in walk_local(ps.node) if isinstance(n, ast.If))
-    rep.ob("O16.3", "R3d", ps, emp_ok and empties == ["∅"], f"printer empties {empties}", "the printer's empty-side symbol is accepted by the parser as the empty side")
+    if not emp_ok:
+        # the membership spelling:  if side in ("", "∅")
+        emp_ok = any(isinstance(c_, ast.Compare) and len(c_.ops) == 1 and isinstance(c_.ops[0], ast.In)
+                     and isinstance(c_.comparators[0], (ast.Tuple, ast.List, ast.Set))
+                     and any(is_const(e_, "∅") for e_ in c_.comparators[0].elts)
+                     for n in walk_local(ps.node) if isinstance(n, ast.If) for c_ in ast.walk(n.test))
+    if not emp_ok and empties == ["∅"] and any(is_const(n, "∅") for n in walk_local(ps.node)):
+        emp_ok = None     # the parser mentions the symbol, in a test this rule does not read
+    rep.ob("O16.3", "R3d", ps, (emp_ok and empties == ["∅"]) if emp_ok is not None else None, f"printer empties {empties}", "the printer's empty-side symbol is accepted by the parser as the empty side")
     asplit = [c for c in walk_local(ad.node) if isinstance(c, ast.Call) and call_name(c) == "split" and c.args and isinstance(c.args[0], ast.Constant)]
     toks = [c.args[0].value for c in asplit]
     rep.ob("O16.3", "R3d", ad, arrow is not None and arrow.strip() in toks and "|" in toks, f"printer arrow {arrow!r} / parser splits {toks}", "the arrow and the suffix bar are the tokens the parser splits on")
@@ -691,7 +711,9 @@ def strings(rep):
     rep.ob("O16.3", "R3d", pr, bool(bar), bar[0] if bar else "suffix", "the suffix is attached behind a bar")
     d = default_of(pr, "include_rule_suffix")
     rep.ob("O16.3", "R3d", pr, d is not None and is_const(d, True), d if d is not None else "include_rule_suffix", "rules are printed by default")
-    mvar2 = [nm for nm, ds in adefs.items() for d_ in ds if d_.kind == "assign" and isinstance(d_.value, ast.Call) and dotted(d_.value.func) in ("re.match", "re.search")]
+    ad_rx = [c for c, _p, _m in _regex_calls(ad)]
+    mvar2 = [nm for nm, ds in adefs.items() for d_ in ds if d_.kind == "assign" and isinstance(d_.value, ast.Call)
+             and (dotted(d_.value.func) in ("re.match", "re.search") or any(d_.value is c for c in ad_rx))]
     rule_src = [d_ for d_ in adefs.get(am["rule"] if am else "", []) if d_.kind == "assign" and mvar2 and norm(d_.value) == f"{mvar2[0]}.group(1)"]
     rep.ob("O16.3", "R3d", ad, bool(rule_src), "rule <- m.group(1)", "the captured token becomes the reaction's rule")
     # __repr__ of RXNSide is a sibling printer and must agree with fmt
